@@ -137,6 +137,15 @@ CHECKS = {
               "without AllowInvalidUTF8, and unquoted again. All literals over four escape alphabets are replayed on AppendUnquote, decoder tokens and Unmarshal. Random strings are validated by TLC."),
         note="PreserveRawStrings passthrough is part of C12's Format check (Format.tla!ReformatLit); bounded-exhaustive plus sampled.",
         design_ref="5 (C11), 4.4"),
+    "C17": dict(
+        technique="TLA+ dispatch model (ordered candidates, decline/policing rules) with TLC-checked ordering theorems over all configurations; exhaustive replay on a generated catalog of 81+8 Go types with scripted, logging methods and functions at 7+3 positions",
+        text=("Dispatch.tla computes, for every assignment of receivers to MarshalerTo/Marshaler/TextAppender/TextMarshaler (and UnmarshalerFrom/Unmarshaler/TextUnmarshaler), every list of "
+              "caller-supplied functions (for T and *T, with and without the coder) and every behaviour of the first two candidates (one value, none, two, partial, ErrUnsupported before/after "
+              "use, error, Reset), which callables are invoked in which order and the outcome. TLC proves the invocation list is a prefix of the documented order, that nothing runs through a "
+              "nil pointer and that only well-behaved callables yield success, and emits all ~53k configurations; the harness executes each on the generated catalog type at every position kind "
+              "(addressable and non-addressable) and compares output, error, panic and the logged invocations."),
+        note="Exhaustive over the bounded configuration space; map-key position and v1 legacy method semantics excluded.",
+        design_ref="5 (C17), 4.6"),
     "C19": dict(
         technique="TLA+ option store with setters and JoinOptions; TLC-checked grouping/last-wins/V2-cancels laws over all setter sequences; exhaustive replay on GetOption under 7 groupings; TLC trace validation of behavioural clauses (irrelevant options, call-scoped options, v1 == v2+DefaultOptionsV1)",
         text=("Options.tla models JoinOptions/GetOption as a map where later entries override earlier ones, with the composite setters made explicit. TLC proves for every sequence (all 73 "
